@@ -171,8 +171,19 @@ func genPkg(r *hx.Rand, full bool) pkgSpec {
 			if full && try == 0 && !used[it.plugin+"/"] {
 				sfx = ""
 			}
-			if !used[it.plugin+"/"+sfx] {
+			// a nested call @q(...) is named <q's prefix>In<suffix>: two outer calls with the same suffix
+			// would give ONE name to two calls of q at different argument types, which goderive rightly
+			// refuses ("conflicting function names") — the inner names must be distinct as well
+			inner := innerKeys(it.args, sfx)
+			free := !used[it.plugin+"/"+sfx]
+			for _, k := range inner {
+				free = free && !used[k]
+			}
+			if free {
 				used[it.plugin+"/"+sfx] = true
+				for _, k := range inner {
+					used[k] = true
+				}
 				ps.calls = append(ps.calls, call{it, sfx})
 				break
 			}
@@ -180,6 +191,20 @@ func genPkg(r *hx.Rand, full bool) pkgSpec {
 	}
 	hx.Shuffle(r, ps.calls)
 	return ps
+}
+
+// innerKeys lists the (plugin, name suffix) of the nested derive calls in an argument list.
+func innerKeys(args, sfx string) []string {
+	var ks []string
+	for {
+		i := strings.Index(args, "@")
+		if i < 0 {
+			return ks
+		}
+		j := i + strings.Index(args[i:], "(")
+		ks = append(ks, args[i+1:j]+"/In"+sfx)
+		args = args[j:]
+	}
 }
 
 func validIdent(n string) bool {
